@@ -96,6 +96,9 @@ impl From<PeerIdentity> for Vec<u8> {
 
 pub(crate) struct Peer {
     pub(crate) _identity: PeerIdentity,
+    /// Which registration of its identity this entry is (REQ's rotation skips entries of
+    /// earlier registrations, so that a peer that comes back has one slot, not two).
+    pub(crate) serial: u64,
     pub(crate) send_queue: FramedWrite<Box<dyn FrameableWrite>, ZmqCodec>,
     pub(crate) recv_queue: FramedRead<Box<dyn FrameableRead>, ZmqCodec>,
 }
